@@ -306,6 +306,16 @@ func (c *Ctx) Ite(cond, a, b *Term) *Term {
 	if b.Op == OpIte && b.Args[0] == cond {
 		return c.Ite(cond, a, b.Args[2])
 	}
+	// ite(c, x|k, x) = x | ite(c, k, 0) for a constant k: keeps a guarded "set bit" a purely bitwise term instead
+	// of a chain of word-wide selections (coil packing loops)
+	if a.S.K == KBV && a.Op == OpBOr {
+		if a.Args[0] == b && a.Args[1].IsConst() {
+			return c.BOr(b, c.Ite(cond, a.Args[1], c.Const(a.S.W, 0)))
+		}
+		if a.Args[1] == b && a.Args[0].IsConst() {
+			return c.BOr(b, c.Ite(cond, a.Args[0], c.Const(a.S.W, 0)))
+		}
+	}
 	return c.mk(OpIte, a.S, 0, 0, 0, "", cond, a, b)
 }
 
